@@ -17,6 +17,11 @@ CLAIMED["C02"] = ("predicated path enumeration over go/ssa (E4) with ordering at
          "go/ssa model; atoms identified by callee+receiver provenance (GetTimestamp on the parameter vs on the value read from the leaf); generated getters pure; loops unrolled to a bound",
          "DESIGN.md §3 C02")
 
+CLAIMED["C07"] = ("predicated path enumeration (E4) with boolean atoms for the ACL decisions; who-may-send enumeration of every stream Send in package subscribe (E1); SSA def-use for the response/ACL object flow",
+         "Static, all-paths safety-by-construction: Unauthenticated gate, single-target PermissionDenied gate before any goroutine/Send/Insert, every Send site is data-free or dominated on every path by RPCACL.Check on the target of the very response sent using the RPC's own ACL, the response wraps the cached notification or its clone, all cache-built notifications carry a target prefix, the per-RPC ACL is never overwritten. This decides the denial half of the property for every schedule, given a truthful ACL; delivery of authorised data is not decided.",
+         "go/ssa model; RPCACL.Check assumed truthful and side-effect free; a third Send site or a Send of an unchecked response is reported; direct callers of exported Target.GnmiUpdate outside the module not covered",
+         "DESIGN.md §3 C07")
+
 NA_REASON = {}
 DEFAULT_NA = "check not built yet in this round (static rules designed in DESIGN.md section 3); not claimed until the rule runs"
 
